@@ -1,3 +1,4 @@
+import Std.Data.HashSet
 import IwModel.Model.KvApi
 import IwModel.Model.FormatEnc
 /-! An independent reader of the iwkv file format (src/kv/data-format.txt, iwkv_internal.h,
@@ -165,67 +166,92 @@ def followLevel (nodes : List Sblk) (i : Nat) : Nat → Nat → List Nat
 
 def rangeBlocks (off len : Nat) : List Nat := (List.range len).map (· + off)
 
+/-- some element occurs twice -/
+def hasDup : List Nat → Bool
+  | [] => false
+  | a :: as => as.contains a || hasDup as
+
+/-- slots in use, with their numbers -/
+def usedSlots (s : Sblk) : List ((Nat × Nat) × Nat) := s.slots.zipIdx.filter fun x => x.1.2 ≠ 0
+
+/-- a used slot that is not inside the data area of its block -/
+def slotOutside (s : Sblk) (x : (Nat × Nat) × Nat) : Bool :=
+  x.1.1 = 0 ∨ x.1.1 > 2 ^ s.szpow - (Gen.KVBLK_HDRSZ + s.idxsz) ∨ x.1.2 > x.1.1
+
+/-- byte intervals [start, end) of the used slots inside the block -/
+def slotIvs (s : Sblk) : List (Nat × Nat) := (usedSlots s).map fun x => (2 ^ s.szpow - x.1.1, 2 ^ s.szpow - x.1.1 + x.1.2)
+
+def overlap (a b : Nat × Nat) : Bool := a.1 < b.2 ∧ b.1 < a.2
+
 def checkSlots (s : Sblk) : Option String :=
-  let size := 2 ^ s.szpow
-  let used := (s.slots.zipIdx.filter fun ((_, len), _) => len ≠ 0)
-  let bad := used.find? fun ((off, len), _) => off = 0 ∨ off > size - (Gen.KVBLK_HDRSZ + s.idxsz) ∨ len > off
-  match bad with
+  let used := usedSlots s
+  match used.find? (slotOutside s) with
   | some ((off, len), i) => some s!"node {s.blk}: slot {i} (off {off}, len {len}) leaves the data area of its 2^{s.szpow}-byte block"
   | none =>
-    -- pairwise disjoint: sort by offset descending start = size - off
-    let ivs := used.map fun ((off, len), _) => (size - off, size - off + len)
-    let overl := ivs.zipIdx.find? fun (iv, i) => ivs.zipIdx.any fun (jv, j) => i < j ∧ iv.1 < jv.2 ∧ jv.1 < iv.2
-    match overl with
+    let ivs := slotIvs s
+    match ivs.zipIdx.find? fun x => ivs.zipIdx.any fun y => x.2 < y.2 ∧ overlap x.1 y.1 with
     | some (iv, _) => some s!"node {s.blk}: overlapping slots at {iv.1}"
     | none =>
-      if s.pi.eraseDups.length ≠ s.pi.length then some s!"node {s.blk}: a slot is referenced twice"
+      if hasDup s.pi then some s!"node {s.blk}: a slot is referenced twice"
       else if used.length ≠ s.pnum then some s!"node {s.blk}: {used.length} used slots but pnum {s.pnum}"
       else none
 
-def checkDb (d : DbImg) : List String := Id.run do
-  let mut errs : List String := []
-  let gt := KvApi.gtE d.flags
-  let nodes := d.nodes
-  -- levels
-  for i in List.range Gen.SLEVELS do
-    let want := levelChain nodes i
-    let got := followLevel nodes i (nodes.length + 2) (d.n.getD i 0)
-    if want ≠ got then errs := errs ++ [s!"db {d.id}: level {i} chain {got} but nodes of level >= {i} are {want}"]
-    let cnt := (nodes.filter (·.lvl = i)).length
-    if d.c.getD i 0 ≠ cnt then errs := errs ++ [s!"db {d.id}: counter of level {i} is {d.c.getD i 0}, nodes with that level: {cnt}"]
-  -- back links
-  let blks := nodes.map (·.blk)
-  let prevs := d.blk :: blks
-  for (s, p) in nodes.zip prevs do
-    if s.p0 ≠ p then errs := errs ++ [s!"db {d.id}: node {s.blk} back link {s.p0}, predecessor is {p}"]
-  -- tail link: the last node; an empty chain is written as 0 or as the database block itself
-  let tailOk := match blks.getLast? with
-    | some b => d.p0 = b
-    | none => d.p0 = 0 ∨ d.p0 = d.blk
-  if !tailOk then errs := errs ++ [s!"db {d.id}: tail link {d.p0}, last node is {blks.getLast?.getD 0}"]
-  -- node contents
-  let mut prevKey : Option KvApi.EKey := none
-  for s in nodes do
-    if s.pnum = 0 then errs := errs ++ [s!"db {d.id}: node {s.blk} is empty"]
-    if s.bpos = 0 ∨ s.bpos > Gen.SBLK_PAGE_SBLK_NUM_V2 then errs := errs ++ [s!"db {d.id}: node {s.blk} page slot {s.bpos}"]
-    match checkSlots s with
-    | some e => errs := errs ++ [e]
-    | none => pure ()
-    match s.recs.head? with
-    | some (k, _) =>
-      let lk := k.take Gen.PREFIX_KEY_LEN_V2
-      if s.lk ≠ lk then errs := errs ++ [s!"db {d.id}: node {s.blk} cached key is not the prefix of its first key"]
-      if (s.flags % 2 = 1) ≠ (k.length ≤ Gen.PREFIX_KEY_LEN_V2) then errs := errs ++ [s!"db {d.id}: node {s.blk} full-key flag wrong"]
-    | none => pure ()
-    for (k, _) in s.recs do
-      match ekeyOf d.flags k with
-      | none => errs := errs ++ [s!"db {d.id}: node {s.blk} holds a malformed key"]
-      | some ek =>
-        match prevKey with
-        | some pk => if !(gt pk ek) then errs := errs ++ [s!"db {d.id}: node {s.blk}: keys out of order"]
-        | none => pure ()
-        prevKey := some ek
-  return errs
+/-- links of level `i` against the level-0 chain, and the counter of level `i` -/
+def levelErrs (d : DbImg) (i : Nat) : List String :=
+  let want := levelChain d.nodes i
+  let got := followLevel d.nodes i (d.nodes.length + 2) (d.n.getD i 0)
+  let cnt := (d.nodes.filter (·.lvl = i)).length
+  (if want ≠ got then [s!"db {d.id}: level {i} chain {got} but nodes of level >= {i} are {want}"] else []) ++
+  (if d.c.getD i 0 ≠ cnt then [s!"db {d.id}: counter of level {i} is {d.c.getD i 0}, nodes with that level: {cnt}"] else [])
+
+/-- back links: every node points to its predecessor, the first one to the database block -/
+def linkErrs (d : DbImg) : List String :=
+  (d.nodes.zip (d.blk :: d.nodes.map (·.blk))).flatMap fun x =>
+    if x.1.p0 ≠ x.2 then [s!"db {d.id}: node {x.1.blk} back link {x.1.p0}, predecessor is {x.2}"] else []
+
+/-- tail link: the last node; an empty chain is written as 0 or as the database block itself -/
+def tailOk (d : DbImg) : Bool :=
+  match (d.nodes.map (·.blk)).getLast? with
+  | some b => d.p0 = b
+  | none => d.p0 = 0 ∨ d.p0 = d.blk
+
+def tailErrs (d : DbImg) : List String :=
+  if !tailOk d then [s!"db {d.id}: tail link {d.p0}, last node is {(d.nodes.map (·.blk)).getLast?.getD 0}"] else []
+
+/-- key order inside and across nodes: `prev` is the last well-formed key seen so far -/
+def keyErrs (d : DbImg) (blk : Nat) : Option KvApi.EKey → List (Bytes × Bytes) → List String × Option KvApi.EKey
+  | prev, [] => ([], prev)
+  | prev, (k, _) :: rest =>
+    match ekeyOf d.flags k with
+    | none =>
+      let r := keyErrs d blk prev rest
+      (s!"db {d.id}: node {blk} holds a malformed key" :: r.1, r.2)
+    | some ek =>
+      let e := match prev with
+        | some pk => if !(KvApi.gtE d.flags pk ek) then [s!"db {d.id}: node {blk}: keys out of order"] else []
+        | none => []
+      let r := keyErrs d blk (some ek) rest
+      (e ++ r.1, r.2)
+
+/-- errors of one node apart from the key order -/
+def nodeSelfErrs (d : DbImg) (s : Sblk) : List String :=
+  (if s.pnum = 0 then [s!"db {d.id}: node {s.blk} is empty"] else []) ++
+  (if s.bpos = 0 ∨ s.bpos > Gen.SBLK_PAGE_SBLK_NUM_V2 then [s!"db {d.id}: node {s.blk} page slot {s.bpos}"] else []) ++
+  (match checkSlots s with | some e => [e] | none => []) ++
+  (match s.recs.head? with
+   | some (k, _) =>
+     (if s.lk ≠ k.take Gen.PREFIX_KEY_LEN_V2 then [s!"db {d.id}: node {s.blk} cached key is not the prefix of its first key"] else []) ++
+     (if (s.flags % 2 = 1) ≠ (k.length ≤ Gen.PREFIX_KEY_LEN_V2) then [s!"db {d.id}: node {s.blk} full-key flag wrong"] else [])
+   | none => [])
+
+def nodeErrs (d : DbImg) : Option KvApi.EKey → List Sblk → List String
+  | _, [] => []
+  | prev, s :: rest =>
+    let r := keyErrs d s.blk prev s.recs
+    nodeSelfErrs d s ++ r.1 ++ nodeErrs d r.2 rest
+
+def checkDb (d : DbImg) : List String :=
+  (List.range Gen.SLEVELS).flatMap (levelErrs d) ++ linkErrs d ++ tailErrs d ++ nodeErrs d none d.nodes
 
 def bitSet (m : Img) (bmoff : Nat) (blk : Nat) : Bool := byteAt m (bmoff + blk / 8) / 2 ^ (blk % 8) % 2 = 1
 
@@ -243,22 +269,22 @@ def ownedBlocks (f : FileImg) : List Nat :=
 
 def checkLedger (m : Img) (f : FileImg) : List String :=
   let owned := ownedBlocks f
-  let sorted := owned.toArray.qsort (· < ·) |>.toList
-  let dup := (sorted.zip (sorted.drop 1)).find? fun (a, b) => a = b
+  let sorted := owned.mergeSort fun a b => a ≤ b
+  let dup := (sorted.zip (sorted.drop 1)).find? fun x => x.1 = x.2
   let nblocks := f.fsm.bmlen * 8
   let marked := (List.range nblocks).filter (bitSet m f.fsm.bmoff)
   let e1 := match dup with | some (a, _) => [s!"block {a} belongs to two structures"] | none => []
   let e2 := match sorted.find? (fun b => !(bitSet m f.fsm.bmoff b)) with
     | some b => [s!"block {b} is used by a structure but free in the bitmap"] | none => []
-  let ownedA := sorted.toArray
-  let e3 := match marked.find? (fun b => !(ownedA.binSearchContains b (· < ·))) with
+  let ownedS := Std.HashSet.ofList owned
+  let e3 := match marked.find? (fun b => !(ownedS.contains b)) with
     | some b => [s!"block {b} is marked allocated but belongs to no structure (leak)"] | none => []
   e1 ++ e2 ++ e3
 
 def audit (m : Img) : Except String (FileImg × List String) := do
   let f ← parse m
   let ids := f.dbs.map (·.id)
-  let e0 := if ids.eraseDups.length ≠ ids.length then ["two databases share an id"] else []
+  let e0 := if hasDup ids then ["two databases share an id"] else []
   return (f, e0 ++ f.dbs.flatMap checkDb ++ checkLedger m f)
 
 /-- contents as the `dump` op prints them -/
